@@ -366,7 +366,10 @@ def run(ctx):
                        "call_first": (i % 2 == 1) == (mode is True),
                        "probes": LATTICE_PROBES, "seed": LATTICE_SEED,
                        "qn_update": mode}, None))
-  # post-construction mutations on the small configurations of every class
+  # post-construction mutations on the configurations with at most one
+  # option (_set_trainable_parameter and attribute assignments on all, QDense
+  # attachment on every other one), _set_trainable_parameter on every fourth
+  # two-option configuration
   j = 0
   for c in cfgs:
     if len(c["kw"]) > 2:
@@ -376,12 +379,14 @@ def run(ctx):
           c["kw"][m["attr"]] == m["value"]):
         continue
       j += 1
-      if m["kind"] != "trainable" and len(c["kw"]) > 1 and j % 2:
+      if len(c["kw"]) == 2 and (m["kind"] != "trainable" or j % 4):
+        continue
+      if m["kind"] == "qdense" and j % 2:
         continue
       cases.append(({"cls": c["cls"], "kw": c["kw"], "call_first": j % 4 < 2,
                      "probes": LATTICE_PROBES, "seed": LATTICE_SEED,
-                     "mutate": dict(m, **({"after_call": True} if j % 2 else
-                                          {}))}, None))
+                     "mutate": dict(m, **({"after_call": True} if j % 3 == 0
+                                          else {}))}, None))
   for case, single in ctx.shard(cases):
     if ctx.time_left() <= 0:
       ctx.labels["inconclusive_time"] += 1
